@@ -83,6 +83,7 @@ class QuadraticNeuronART(BaseART):
         assert 1.0 >= params["lr_s"] >= 0.0
         assert isinstance(params["rho"], float)
         assert isinstance(params["s_init"], float)
+        assert np.isfinite(params["s_init"])
         assert isinstance(params["lr_b"], float)
         assert isinstance(params["lr_w"], float)
         assert isinstance(params["lr_s"], float)
